@@ -185,6 +185,10 @@ def run_case(seed):
     pf1 = gen.gen_plotfile(rng, ndims=3, max_blocks=2, nfields=(1, 4), nlevels=rng.choice([1, 2, 2, 3]),
                            payload=rng.choice(['ints', 'random', 'special']))
     pf1.fields = [f.replace(' ', '_') for f in pf1.fields]
+    ra = random.Random(seed * 977 + 4)
+    if ra.random() < 0.15 and len(pf1.fields) >= 2 and 'all' not in pf1.fields:
+        # a field that is called like the 'all' keyword of other tools: for combine it is a name like any other
+        pf1.fields[ra.randrange(len(pf1.fields))] = 'all'
     relation = rng.choice(['same', 'same_files_permuted', 'same_files_permuted', 'different', 'different', 'mixed', 'mixed', 'mixed',
                            'escalating', 'escalating'])
     # geometry scales on which a comparison of PHYSICAL box bounds with a tolerance cannot tell two meshes apart
@@ -211,6 +215,13 @@ def run_case(seed):
     img1, img2 = diskimg.image_of(pf1), diskimg.image_of(pf2)
     diskimg.write_image(img1, p1)
     diskimg.write_image(img2, p2)
+    rl = random.Random(seed * 389 + 1)
+    if rl.random() < 0.25:
+        # level directories / binary files of the inputs that are symbolic links to differently named targets
+        pf1.meta['symlinks'] = gen.symlink_parts(p1, core.scratch_dir(f"c06a_{seed}_store"), rl)
+        if rl.random() < 0.5:
+            pf2.meta['symlinks'] = gen.symlink_parts(p2, core.scratch_dir(f"c06b_{seed}_store"), rl)
+    count(f"symbolic links inside the inputs={'symlinks' in pf1.meta}")
     count(f"layouts={relation}")
     count(f"levels={pf1.nlevels}")
     count(f"first_monotone={all(k == 'monotone' for k in pf1.meta['layouts'])}")
@@ -219,6 +230,10 @@ def run_case(seed):
     for k in range(2 if not bad_mesh else 1):
         k1, v1 = gen_sel(rng, keys1, 1)
         k2, v2 = gen_sel(rng, keys2, 2)
+        if k == 0 and 'all' in keys1:
+            k1, v1 = 'the field named all, alone', ra.choice([['all'], 'all'])
+        if k == 0 and 'all' in keys2 and ra.random() < 0.5:
+            k2, v2 = 'the field named all, alone', ra.choice([['all'], 'all'])
         count(f"vars1={k1}")
         count(f"vars2={k2}")
         outp = os.path.join(core.scratch_dir(f"c06_{seed}_out"), 'combined')
@@ -348,6 +363,8 @@ def run(tier, seed):
                    not any(v[0].get('kind') == 'model-vs-impl' for v in rep.violations))
     rep.obligation('correspondence: Abstract.pf_disk of both abstract plotfiles = the directories on disk the implementation reads',
                    not any(v[0].get('kind') in ('encode', 'spec') for v in rep.violations))
+    rep.obligation("hypotheses of C06_tool on every combined pair: goodb = true for both plotfiles (proved sound for 'good')",
+                   not any(v[0].get('kind') == 'hypothesis' for v in rep.violations))
     rep.obligation('theorem instance (C06_tool) on every combined pair: combine_tool (pf_disk pf1) (pf_disk pf2) = pf_disk (combine_spec ...), '
                    'evaluated by the extracted code', not any(v[0].get('kind') == 'spec-vs-model' for v in rep.violations))
     return rep.finish(
